@@ -1017,7 +1017,7 @@ def _short(v):
         return str(val)[:80]
 
 
-TAGS = {"mrf2d": [], "mapped_x": ["x.prec"], "heat_pde": ["y.cov"], "userdef_x": ["y.cov"], "gamma_mv": [], "kl_nonlin": ["y.cov"], "lin_step": ["y.cov"], "selfnamed": ["y.cov"], "cov_sdt": ["y.cov"], "cov_sd": ["y.cov"], "direct_param": ["y.cov"], "sigdep_x": ["x.prec", "y.cov"], "reg_d": ["x.prec"], "lin_geom": ["y.cov"], "lognormal_cov_s": ["x.cov"], "lin_sqrtprecF": ["y.cov"], "lin_s": ["y.cov"], "lin_d_s": ["x.prec", "y.cov"], "gmrf_d_s": ["x.prec", "y.prec"], "lmrf_d": ["x.scale"],
+TAGS = {"two_lik_shared": ["y2.cov"], "mrf2d": [], "mapped_x": ["x.prec"], "heat_pde": ["y.cov"], "userdef_x": ["y.cov"], "gamma_mv": [], "kl_nonlin": ["y.cov"], "lin_step": ["y.cov"], "selfnamed": ["y.cov"], "cov_sdt": ["y.cov"], "cov_sd": ["y.cov"], "direct_param": ["y.cov"], "sigdep_x": ["x.prec", "y.cov"], "reg_d": ["x.prec"], "lin_geom": ["y.cov"], "lognormal_cov_s": ["x.cov"], "lin_sqrtprecF": ["y.cov"], "lin_s": ["y.cov"], "lin_d_s": ["x.prec", "y.cov"], "gmrf_d_s": ["x.prec", "y.prec"], "lmrf_d": ["x.scale"],
         "two_lik": ["y2.cov"], "nonlin": ["y.cov"], "xz_s": ["y.cov"], "laplace_b": ["x.scale"],
         "mean_m": ["x.mean", "y.cov"], "cmrf_d": ["x.scale"], "lognormal": ["y.cov"]}
 
